@@ -46,7 +46,7 @@ fn expected13(code: u16, t: &gillham::Table) -> Option<i64> {
 
 pub fn run(a: &Args, r: &mut Report) {
     r.exhaustive = true;
-    r.rule = "exhaustive: 2^16 gray2alt arguments, 2^13 decode_id13 arguments, 2^13 AC codes x DF0/4/16/20, 2^12 ME altitude codes x TC 9..18,20..22 (single frames, and again as the second report of a two-report history through decode_positions, following a report of the other or of the same parity that carries an ordinary altitude), 2^13 identity codes x DF5/DF21/BDS6,1; a case is one (function, code) pair; all are distinct; non-trivial = every pair whose expected value is an altitude/identity rather than 'unavailable' The header fields in front of a 13-bit code (flight status, downlink request, utility message, vertical status, sensitivity level, reply information) take all their values as the code runs.".into();
+    r.rule = "exhaustive: 2^16 gray2alt arguments, 2^13 decode_id13 arguments, 2^13 AC codes x DF0/4/16/20, 2^12 ME altitude codes x TC 9..18,20..22 (single frames, and again as the second report of a two-report history through decode_positions, following a report of the other or of the same parity that carries an ordinary altitude), 2^13 identity codes x DF5/DF21/BDS6,1; every 13-bit / 12-bit code is judged again right after the other decoder has seen the numerically same raw value; a case is one (function, code) pair; all are distinct; non-trivial = every pair whose expected value is an altitude/identity rather than 'unavailable' The header fields in front of a 13-bit code (flight status, downlink request, utility message, vertical status, sensitivity level, reply information) take all their values as the code runs.".into();
     r.assumptions.push("altitude exactly 0 ft is accepted as either 0/Some(0) or unavailable (0 is the 13-bit API's 'unavailable' sentinel)".into());
     r.assumptions.push("AC codes with the M bit set are checked for totality only (metric altitude is reserved in Annex 10)".into());
     let t = gillham::table();
@@ -254,6 +254,40 @@ pub fn run(a: &Args, r: &mut Report) {
                             r.violation(sig, format!("code {code:#06x}: 13-bit field gives {v13} ft, the same code in a 12-bit ME field gives {:?}", got), json!({"fn":"frame","frame":hexs(&f), "frame13": hexs(&frames::df4(0,0,0,code,addr))}));
                         }
                     }
+                }
+            }
+        }
+        // 4a. look-alikes decoded just before: the 13-bit and the 12-bit field are different codes even when the raw numbers
+        // coincide (the M position only exists in the 13-bit layout). Each decoder is judged again right after the *other*
+        // decoder has seen the numerically same raw value, and after it has seen the same altitude in its own layout.
+        if !m_bit {
+            let c12 = gillham::field13_to_12(code);
+            let exp = expected13(code, &t);
+            // (i) DF4 with raw 13-bit value == c12, then the ME code c12 judged
+            let prime13 = frames::df4(0, 0, 0, c12 & 0x1fff, addr);
+            let me = frames::me_airborne(11, 0, 0, c12, 0, 0, 0x0f0f0, 0x0a0a0);
+            let f12 = frames::df17(5, addr ^ 0x101, &me);
+            let _ = guarded(|| Message::try_from(prime13.as_slice()));
+            r.evaluations += 1;
+            if let Ok(Ok(got)) = guarded(|| ac12_of(&f12)) {
+                let (ok, _) = judge(exp, got.map(|x| x as i64), got.is_none());
+                if ok {
+                    r.class("ac12-after-a-13-bit-look-alike:ok");
+                } else {
+                    r.violation("C13:ac12:after-look-alike", format!("ME ALT={c12:#05x} decoded right after a DF4 whose 13-bit field holds the same number: {:?}, standard: {}", got, show(exp)), json!({"fn":"history","frames":[hexs(&prime13), hexs(&f12)]}));
+                }
+            }
+            // (ii) BDS 0,5 with raw 12-bit value == code & 0xfff, then the DF4 code judged
+            let prime12 = frames::df17(5, addr ^ 0x101, &frames::me_airborne(11, 0, 0, code & 0xfff, 0, 1, 0x0f0f0, 0x0a0a0));
+            let f13 = frames::df4(0, 0, 0, code, addr);
+            let _ = guarded(|| Message::try_from(prime12.as_slice()));
+            r.evaluations += 1;
+            if let Ok(Ok(got)) = guarded(|| ac13_of(&f13)) {
+                let (ok, _) = judge(exp, if got == 0 { None } else { Some(got as i64) }, got == 0);
+                if ok {
+                    r.class("ac13-after-a-12-bit-look-alike:ok");
+                } else {
+                    r.violation("C13:ac13:after-look-alike", format!("DF4 AC={code:#06x} decoded right after a BDS 0,5 whose 12-bit field holds the same number: {got} ft, standard: {}", show(exp)), json!({"fn":"history","frames":[hexs(&prime12), hexs(&f13)]}));
                 }
             }
         }
